@@ -155,6 +155,19 @@ CHECKS.update({
         design="DESIGN.md §1 C14"),
 })
 
+CHECKS.update({
+    "C18": dict(
+        category="other",
+        technique="real netconfig/network code executed on 32-bit bit-vector addresses (ipaddress shim); validity queries per prefix length; symbolic address equality through the real registries",
+        text=("netconfig.ipaddress is replaced by a bit-vector shim: an address is a 32-bit z3 term carried through the real string-based code as a str subclass with symbolic equality. "
+              "Kernels (validity queries for all 2^32 addresses x 33 prefix lengths): mask_bit setter/getter round trip, _get_network_ip = ip & mask, translate_address = target network | host offset "
+              "with no integer wrap for every host of the source subnet, get_allocatable_address hands out network+offset once each then IndexError. Model: the real VMNetwork.__init__/integrate_node/"
+              "reattach_interface on stub vms (1..2 (3) vms x 1..2 nics, prefix lengths 8/16/24/30, arbitrary distinct host addresses): every interface is in exactly one registered netconfig whose subnet "
+              "contains its address, registry keys equal network addresses, one registration per interface under its own address, no duplicate addresses - also after reattachments. Exhaustive."),
+        note="Trusted: the ipaddress shim (IPv4Address, ip_interface, network/netmask semantics). Counterexamples are replayed with the real ipaddress module and the model's concrete addresses.",
+        design="DESIGN.md §1 C18"),
+})
+
 NOT_APPLICABLE = {
     "C07": "Both sides of 'parsed edges = edges declared in the configuration' are functions of concrete configuration text through virttest's Cartesian parser (2200 lines of text processing outside /repo) which cannot be executed on symbolic strings within reach; deciding it would be differential testing over enumerated selections, a different technique. See DESIGN.md §2.",
 }
